@@ -16,7 +16,7 @@ from .. import paths, storewalk, tables
 from ..model import AnalysisError, Project, reachable, self_attr, walk_no_nested
 from ..report import Result, ctx_of
 from ..tables import RP
-from .common import site, src
+from .common import check_ctor_wiring, ctor_wiring, paths_skipping_loop, site, src
 
 PROP = 'C13'
 LEVEL = 'other'
@@ -44,6 +44,18 @@ def run(p: Project, tier: str) -> Result:
     check_delayed_interrupts(p, r)
     check_stall_delay_conversion(p, r)
     check_interrupters(p, reach, r)
+    r.ctx = ''
+    r.rule('C13.R8', 'the conveyor hands its configured accumulating flag unchanged to a belt store that takes one', 1)
+    for ci in tables.edge_classes(p):
+        if ci.name != 'ConveyorBelt':
+            continue
+        attr, skeys = tables.edge_store_attr(p, ci)
+        _call, got = ctor_wiring(p, ci, attr)
+        takes = any('accumulation_mode_indicator' in [a.arg for a in c.methods['__init__'].node.args.args]
+                    for k in skeys for c in p.mro(k)[:1] if '__init__' in c.methods)
+        if takes or 'accumulation_mode_indicator' in got:
+            check_ctor_wiring(p, r, 'C13.R8', ci, attr, {'accumulation_mode_indicator': 'accumulating'},
+                              'whether the belt stops as a whole or closes up during a stall is decided by the store from this flag')
     return r
 
 
@@ -602,6 +614,23 @@ def check_delayed_interrupts(p, r):
                         else:
                             r.fail('C13.R6', key, 'a delayed interrupt is scheduled but not recorded anywhere: it cannot be cancelled when the belt is released, fires '
                                                   'later and freezes an item on a moving belt (the item waits for a resume that never comes)', src(fi.module), n.lineno)
+    # the sweep itself: called on release (below), it cancels every recorded process whoever calls it and whatever happened before
+    for s in belt_store_classes(p):
+        fi = s.methods.get('interrupt_and_resume_all_delayed_interrupt_processes')
+        if fi is None or not any(c.key in spawners for c in p.mro(s.ci.key)):
+            continue
+        r.ctx = ctx_of(s)
+        r.analysed_functions.add(fi.key)
+        key = f'{fi.key}::sweep-is-unconditional'
+        loops, bad = paths_skipping_loop(p, s.ci.key, fi, 'active_delayed_interrupt_processes')
+        if not loops:
+            r.fail('C13.R6', key, 'the cancellation sweep does not iterate over active_delayed_interrupt_processes', src(fi.module), fi.node.lineno)
+        elif bad:
+            r.fail('C13.R6', key, 'the cancellation sweep returns without looking at active_delayed_interrupt_processes on a path that does not say the '
+                                  'table is empty: a delayed interrupt recorded by another method (handle_new_item_during_interruption) survives the release, '
+                                  'fires later and freezes an item on a moving belt', src(fi.module), fi.node.lineno, bad[0].describe())
+        else:
+            r.ok('C13.R6', key, 'every completing path sweeps active_delayed_interrupt_processes', src(fi.module), fi.node.lineno)
     # release transition of every conveyor whose belt store schedules delayed interrupts
     for ci in tables.edge_classes(p):
         if ci.name != 'ConveyorBelt':
